@@ -247,6 +247,8 @@ def check(ctx):
               T.UAVariant(T.UAUInt32(3)), T.UAVariant(T.UAFloat(1.5)), T.UAVariant(T.UAString("s")), T.UAVariant(T.UAGuid("12345678-9ABC-DEF0-1234-56789ABCDEF0")),
               T.UAVariant(T.UAByteString(b"ab")), T.UAVariant(T.UAXMLElement("<a/>")), T.UAVariant(T.UANodeId(1, "i", "5")), T.UAVariant(T.UALocalizedText("t", "en")),
               T.UAVariant(T.UADateTime(datetime.datetime(2020, 1, 2, 3, 4, 5, tzinfo=datetime.timezone.utc))),
+              # long lists (every element is part of the Body)
+              T.UAListOf(tuple(T.UAInt32(i) for i in range(1001)), "Int32"), T.UAListOf(tuple(T.UAUInt16(i % 7) for i in range(1500)), "UInt16"), T.UAListOf(tuple(T.UADouble(i + 0.5) for i in range(1001)), "Double"),
               # texts at the edge of what a quoting shortcut might look at: a final line feed, only a line feed, a final backslash, a final quote
               T.UAString("abc\n"), T.UAString("\n"), T.UAString("abc\\"), T.UAString("q\""), T.UAString("tab\tend"), T.UAGuid("g\n"), T.UALocalizedText("x\n", "en"), T.UAXMLElement("<a/>\n")]
     n_rand = 350 if ctx.quick() else 8000
